@@ -292,6 +292,9 @@ static void do_unmap(int s, int nframes)
     printf("API unmap %d %zu -> %s\n", s, consumed, rc == AcquireStatus_Ok ? "ok" : "err");
 }
 
+static int g_cosim, g_in_window;
+static void state_line(void);
+
 static void exec_client(const char* op)
 {
     char v[64];
@@ -372,7 +375,16 @@ static void exec_client(const char* op)
         printf("API waitidle -> %s\n", device_state_as_string(acquire_get_state(g_rt)));
     } else if (!strncmp(op, "sleep ", 6)) {
         for (int i = atoi(op + 6); i > 0; --i) clock_sleep_ms(0, 1.0f);
+    } else if (!strcmp(op, "window")) {
+        // co-simulation window: from here on every scheduler decision is reported (the model starts here)
+        g_in_window = 1;
+        printf("WINDOW\n");
+    } else if (!strcmp(op, "endwindow")) {
+        if (g_in_window) { printf("ENDWINDOW\n"); state_line(); }
+        g_in_window = 0;
     } else if (!strcmp(op, "shutdown")) {
+        if (g_in_window) { printf("ENDWINDOW\n"); state_line(); }
+        g_in_window = 0;
         enum AcquireStatusCode rc = acquire_shutdown(g_rt);
         g_rt = 0;
         printf("API shutdown -> %s\n", rc == AcquireStatus_Ok ? "ok" : "err");
@@ -392,6 +404,43 @@ static void body(void* arg)
     for (int i = 0; i < g_nprog; ++i)
         exec_client(g_prog[i]);
     if (g_rt) exec_client("shutdown");
+}
+
+// ------------------------------------------------------------------------------- co-simulation output
+// g_cosim: print one D/S pair per scheduler decision inside the window
+
+static void chan_digest(const struct channel* c)
+{
+    printf("%zu %zu %zu %zu %d %u [", c->head, c->high, c->cycle, c->mapped, c->is_accepting_writes ? 1 : 0, c->holds.n);
+    for (unsigned i = 0; i < c->holds.n && i < 8; ++i) printf("%s%zu:%zu", i ? " " : "", c->holds.pos[i], c->holds.cycles[i]);
+    printf("]");
+}
+static void rd_digest(const struct channel_reader* r)
+{
+    printf("%u:%zu:%zu:%d:%d", r->id, r->pos, r->cycle, (int)r->status, r->state == ChannelState_Mapped ? 1 : 0);
+}
+static void state_line(void)
+{
+    struct runtime* r = rt();
+    printf("S");
+    for (int s = 0; s < 2; ++s) {
+        struct video_s* v = &r->video[s];
+        printf(" s%d: K=", s); chan_digest(&v->sink.in);
+        printf(" F="); chan_digest(&v->filter.in);
+        printf(" R="); rd_digest(&v->sink.reader); printf(";"); rd_digest(&v->filter.reader); printf(";"); rd_digest(&v->monitor.reader);
+        printf(" fl=%d%d%d%d%d%d", v->source.is_stopping, v->source.is_running, v->filter.is_stopping, v->filter.is_running,
+               v->sink.is_stopping, v->sink.is_running);
+        printf(" hal=%d%d", v->source.camera ? (int)v->source.camera->state : 2, v->sink.storage ? (int)v->sink.storage->state : 2);
+        printf(" |");
+    }
+    printf(" rt=%d\n", (int)r->state);
+}
+static void on_event(void* ctx, const struct detsched_event* ev)
+{
+    (void)ctx;
+    if (!g_cosim || !g_in_window || !g_rt) return;
+    printf("D %d %s %s\n", ev->tid, detsched_kind_name(ev->kind), ev->label && ev->label[0] ? ev->label : "-");
+    state_line();
 }
 
 // ------------------------------------------------------------------------------- scheduler glue
@@ -465,6 +514,7 @@ static void run_child(char* spec)
     cfg.hang_rounds = g_hang_rounds;
     cfg.digest = digest;
     cfg.on_terminal = on_terminal;
+    cfg.on_event = on_event;
     mock_reset();
     for (int i = 0; i < g_nfaults; ++i) {
         int d = 0, c = 0; char p = 0;
@@ -492,9 +542,10 @@ int main(void)
         if (!strncmp(p, "ring ", 5)) g_ring = (size_t)atol(p + 5);
         else if (!strncmp(p, "limit ", 6)) g_limit = (size_t)atol(p + 6);
         else if (!strncmp(p, "hang ", 5)) g_hang_rounds = atoi(p + 5);
+        else if (!strncmp(p, "cosim ", 6)) g_cosim = atoi(p + 6);
         else if (!strncmp(p, "fault ", 6)) { if (g_nfaults < 16) { snprintf(g_faults[g_nfaults], 64, "%s", p + 6); g_nfaults++; } }
         else if (!strncmp(p, "camempty ", 9) || !strncmp(p, "camstartfail ", 13)) { if (g_nfaults < 16) { snprintf(g_faults[g_nfaults], 64, "%s", p); g_nfaults++; } }
-        else if (!strncmp(p, "reset", 5)) { g_nprog = 0; g_nfaults = 0; }
+        else if (!strncmp(p, "reset", 5)) { g_nprog = 0; g_nfaults = 0; g_cosim = 0; }
         else if (!strncmp(p, "prog ", 5)) {
             char* save = 0;
             for (char* tok = strtok_r(p + 5, ";\n", &save); tok; tok = strtok_r(0, ";\n", &save)) {
